@@ -49,8 +49,23 @@ func marshal(c interface{ Marshal() ([]byte, error) }) (b []byte, err error, pan
 func roundTrip(s smbgen.Struct, rels []smbgen.Relation, mode smbgen.Mode, iter int, maxLen int) {
 	rng := r.Rand(fmt.Sprintf("rt|%s|%d|%d", s.Name, mode, iter))
 	c := s.New()
-	smbgen.Fill(c, rels, rng, mode, maxLen)
-	smbgen.AlignPads(c, rels)
+	_ = rng
+	prepare := func(x ci.CommandInterface) {
+		smbgen.Fill(x, rels, r.Rand(fmt.Sprintf("rt|%s|%d|%d", s.Name, mode, iter)), mode, maxLen)
+		smbgen.AlignPads(x, rels)
+		if maxLen < 0 && iter%200 >= 100 {
+			// steer the data block to the top of the 16-bit byte count
+			if b0, e0, p0, _, _ := marshal(x); !p0 && e0 == nil {
+				if _, d0, ok := smbgen.Blocks(b0); ok && len(d0) >= 32760 {
+					target := []int{65535, 65534, 65533, 65500}[(iter/200)%4]
+					if smbgen.Grow(x, rels, target-len(d0)) {
+						r.Count("big_data_blocks_steered", 1)
+					}
+				}
+			}
+		}
+	}
+	prepare(c)
 	cs := func(extra map[string]any) map[string]any {
 		m := map[string]any{"struct": s.Name, "mode": smbgen.ModeNames[mode], "iter": iter, "fields": fmt.Sprintf("%+v", reflect.ValueOf(c).Elem().Interface())}
 		for k, v := range extra {
@@ -68,8 +83,7 @@ func roundTrip(s smbgen.Struct, rels []smbgen.Relation, mode smbgen.Mode, iter i
 			ro = s.New()
 			reused[s.Name] = ro
 		}
-		smbgen.Fill(ro, rels, r.Rand(fmt.Sprintf("rt|%s|%d|%d", s.Name, mode, iter)), mode, maxLen)
-		smbgen.AlignPads(ro, rels)
+		prepare(ro)
 		br, errR, panR, _, _ := marshal(ro)
 		r.Eval(1)
 		if panR || errR != nil || !bytes.Equal(br, b1) {
